@@ -9,6 +9,7 @@ import p_search
 import p_own
 import p_guards
 import p_mapped
+import p_effect
 
 VERIF = os.path.dirname(os.path.dirname(os.path.abspath(__file__)))
 
@@ -227,4 +228,24 @@ PROPS['C12'] = {
     ],
     'not_decided': 'byte identity of the key area and of the segment contents between the two creating constructors (value-level); that answers are identical rests on C01/C02',
     'explanation': 'Clause-level static claim for C12: constructor, serialiser and loader agree structurally; a constructor that omits a field or a loader that disagrees with the writer breaks reopen equivalence.',
+}
+
+
+PROPS['C16'] = {
+    'level': 'proof', 'rules': p_effect.rules_c16, 'extra': p_effect.extra,
+    'selftests': [('EFFECT on selftest/pos/effect.cpp', p_effect.selftest)],
+    'technique': 'static analysis: interprocedural write-effect analysis (abstract locations this / pointee-of-field / parameter / static storage, call-graph fixpoint of per-function summaries) over the instantiated clang AST; thorough tier adds an independent LLVM-IR store analysis',
+    'decides': [
+        'EFFECT: no reader entry point (search/segments_count/height of the static indexes; MappedPGMIndex contains/lower_bound/upper_bound/count/size/begin/end; '
+        'MultidimensionalPGMIndex contains/range/begin/end and RangeIterator ++,*,->,==,!=; DynamicPGMIndex find/count/lower_bound/range/begin/end/size/empty and Iterator ++,*,->,==,!=; '
+        'the extern "C" search/find/size/begin/lower_bound/iterator_next functions) can, through any call chain inside pgm::/sdsl::/mortonnd::, write the index object, memory reachable from it or static storage; '
+        'no mutable field, non-constexpr static local or const-removing cast occurs on those paths. Writes to the iterator object itself, to locals and to out-parameters are thread-private.',
+        'Because readers only read state that is immutable after construction, each call is a function of that state and its arguments (the "returns what it returns alone" clause).',
+    ],
+    'not_decided': 'size_in_bytes() of the Compressed / Elias-Fano variants (not among the listed query operations): it runs sdsl\'s serialiser against a null stream, whose structure-tree writes are guarded by a null test that this path-insensitive engine cannot evaluate',
+    'explanation': 'Full static claim for C16: a data race needs a write to a location another thread accesses; the effect analysis shows that no reader path contains such a write. '
+                   'The analysis does not rely on const qualifiers (MultidimensionalPGMIndex::contains/range are non-const): it classifies every write by the root of its access path.',
+    'trusted_base': DEFAULT_TRUSTED_BASE + ['the table of external (std::/libc/builtin) callee effects in rules/effect.py; the entries actually used are listed in coverage.external_callee_table_used',
+                                            'member functions returning references/pointers return sub-objects of (or memory owned by) their object'],
+    'assumptions': ['user-supplied key/value types and callbacks have race-free const operations', 'each thread owns the iterator objects it advances'],
 }
